@@ -35,7 +35,8 @@ class PcWorld:
         self.received = {}
         self.cut_happened = set()
         ngens = 1 + ch.draw(5, "ngens")
-        prios = ch.sample(list(range(1, 60)), ngens, "prios")
+        # priorities are pairwise distinct but otherwise arbitrary integers: zero, negative, around the class default (100)
+        prios = ch.sample([-7, -1, 0, 1, 2, 10, 50, 99, 101, 150, 1000], ngens, "prios")
         self.specs = []
         for i in range(ngens):
             self.specs.append({
@@ -51,7 +52,7 @@ class PcWorld:
         for s in self.specs:
             if s["prio"] is None:
                 if seen_default:
-                    s["prio"] = 61 + self.specs.index(s)
+                    s["prio"] = 2000 + self.specs.index(s)
                 seen_default = True
         self.order = list(range(ngens))
 
@@ -183,10 +184,10 @@ class Engine:
         gens = [make_entire(world.specs[i], world) for i in world.order]
         return F.SimLoader(world.inv, lambda d: ([], gens))
 
-    def deploy(self, world, reload_flag):
+    def deploy(self, world, reload_flag, acl_safe=False):
         from .cli import AnnetCrashed
         args = self.cli_args.DeployOptions(query=F.SimQuery(), config="running", parallel=1, tolerate_fails=True, indent="  ",
-                                           no_ask_deploy=True, no_check_diff=True, no_progress=True,
+                                           no_ask_deploy=True, no_check_diff=True, no_progress=True, acl_safe=acl_safe,
                                            entire_reload=self.cli_args.EntireReloadFlag(reload_flag))
         deployer = self.api.Deployer(args)
         world.received = {}
@@ -200,10 +201,11 @@ class Engine:
                 raise AnnetCrashed(e)
         return rc, deployer
 
-    def diff(self, world):
+    def diff(self, world, acl_safe=False):
         import annet.gen as ann_gen
         from .cli import AnnetCrashed
-        args = self.cli_args.ShowDiffOptions(query=F.SimQuery(), config="running", parallel=1, tolerate_fails=True, indent="  ")
+        args = self.cli_args.ShowDiffOptions(query=F.SimQuery(), config="running", parallel=1, tolerate_fails=True, indent="  ",
+                                             acl_safe=acl_safe)
         ann_gen.live_configs = None
         loader = self._loader(world)
         with self._captured():
@@ -216,7 +218,9 @@ class Engine:
         return ok, fail
 
     # ------------------------------------------------------------------ reference model
-    def _reference(self, world):
+    def _reference(self, world, acl_safe=False):
+        """planned content per path: the highest-priority generator for the path; in safe mode the path is planned only
+        when that winner declares itself safe (the safe filter never promotes a losing generator)"""
         winners = {}
         for s in world.specs:
             prio = 100 if s["prio"] is None else s["prio"]
@@ -224,12 +228,14 @@ class Engine:
                 winners[s["path"]] = (prio, s)
         new, reload = {}, {}
         for p, (_prio, s) in winners.items():
+            if acl_safe and not s["is_safe"]:
+                continue
             new[p] = PcWorld.content(s["parts"])
             r = s["reload"] or ""
             if world.soft.startswith(("Cumulus", "SwitchDev", "SONiC")):
                 r = "\n".join(([r] if r else []) + ["/usr/bin/etckeeper commitreload %s" % p])
             reload[p] = r
-        return new, reload, {p: s["name"] for p, (_x, s) in winners.items()}
+        return new, reload, {p: s["name"] for p, (_x, s) in winners.items() if p in new}
 
     @staticmethod
     def _known_kind(old, new):
@@ -281,7 +287,9 @@ class Engine:
                     if step == 0 or ch.draw(3, "regen") == 0:
                         s["parts"] = world.draw_parts(ch)
             world.order = ch.shuffle(list(range(len(world.specs))), "listing")
-            new, reload, winner = self._reference(world)
+            acl_safe = ch.draw(4, "acl-safe") == 0
+            new, reload, winner = self._reference(world, acl_safe)
+            all_new = self._reference(world, False)[0]
             for p in sorted(new):
                 rel = ch.weighted([(3, "keep"), (2, "equal"), (2, "different"), (1, "absent"), (1, "newline-only"), (1, "empty")],
                                   "file-relation")
@@ -302,11 +310,11 @@ class Engine:
             fetch_fail = ch.draw(8, "fetch-fail") == 0
             world.fetch_plan = {world.inv[0].id: {"fail": "exc"}} if fetch_fail else {}
             old = dict(world.files)
-            entry = {"step": step, "reload": flag, "fetch_fail": fetch_fail, "listing": list(world.order),
+            entry = {"step": step, "reload": flag, "fetch_fail": fetch_fail, "listing": list(world.order), "acl_safe": acl_safe,
                      "files": {p: [None if old.get(p) is None else len(old[p]), len(new[p])] for p in sorted(new)}}
             steps_log.append(entry)
             # --- annet diff
-            ok, fail = self.diff(world)
+            ok, fail = self.diff(world, acl_safe)
             dev_id = world.inv[0].id
             if fetch_fail:
                 if dev_id not in fail and ok.get(dev_id):
@@ -320,7 +328,7 @@ class Engine:
                 if pcd is not None and hasattr(pcd, "diff_files"):
                     for f in pcd.diff_files:
                         label = f.label
-                        for p in new:
+                        for p in all_new:
                             if label.endswith(world.inv[0].hostname + "/" + p):
                                 shown[p] = f.diff_lines
                 for p in sorted(new):
@@ -338,7 +346,7 @@ class Engine:
                         return V("diff-for-unplanned-path", "diff-extra", step=step, path=p)
                 world.probe("diff_compared")
             # --- annet deploy
-            rc, deployer = self.deploy(world, flag)
+            rc, deployer = self.deploy(world, flag, acl_safe)
             got = world.received.get(dev_id)
             if fetch_fail:
                 if got is not None:
@@ -362,7 +370,8 @@ class Engine:
                         return v
                     continue
                 if p not in want_files:
-                    return V("unchanged-file-uploaded", "upload-extra", step=step, path=p, reload=flag)
+                    key = "unsafe-winner-replaced-by-loser" if (acl_safe and p not in new) else "upload-extra"
+                    return V("unchanged-file-uploaded", key, step=step, path=p, reload=flag, acl_safe=acl_safe)
                 if got_files[p] != want_files[p]:
                     other = [s["name"] for s in world.specs if s["path"] == p and PcWorld.content(s["parts"]).encode() == got_files[p]]
                     return V("wrong-bytes-uploaded", "losing-generator" if other else "content", step=step, path=p,
@@ -388,7 +397,7 @@ class Engine:
                     if world.files.get(p) != got_files[p].decode():
                         raise HarnessError("PcDevice did not store the upload")
                 old2 = dict(world.files)
-                rc2, deployer2 = self.deploy(world, "yes")
+                rc2, deployer2 = self.deploy(world, "yes", acl_safe)
                 again = world.received.get(dev_id)
                 if again and again["files"]:
                     return V("upload-repeated-after-apply", "not-idempotent", step=step, paths=sorted(again["files"]))
